@@ -427,3 +427,142 @@ func retCases(cf *FuncInfo) []retCase {
 }
 
 var _ = strings.TrimSpace
+
+// ---------------------------------------------------------------------------
+// order of bookkeeping relative to emitted text
+
+var varTok = regexp.MustCompile(`\b(m|n|SNAP)\d+\b`)
+
+// effTargets returns the state a bookkeeping node writes (local names, table names).
+func effTargets(n emNode) (targets []string, pure bool) {
+	switch x := n.(type) {
+	case *emTok:
+		return nil, false
+	case *emEff:
+		d := x.desc
+		switch {
+		case strings.HasPrefix(d, "CALL "), d == "RETURN", d == "CONTINUE", d == "BREAK", d == "GOTO":
+			return nil, false
+		case strings.HasPrefix(d, "LOCAL "), strings.HasPrefix(d, "DEF "), strings.HasPrefix(d, "SNAP"):
+			if m := varTok.FindString(d); m != "" {
+				return []string{m}, true
+			}
+			return nil, false
+		case strings.HasPrefix(d, "APPEND "), strings.HasPrefix(d, "SET "), strings.HasPrefix(d, "WRITE "):
+			t := strings.Fields(d)[1]
+			for _, sep := range []string{"<-", "[", "="} {
+				if i := strings.Index(t, sep); i >= 0 {
+					t = t[:i]
+				}
+			}
+			if i := strings.LastIndex(t, "."); i >= 0 {
+				t = t[i+1:]
+			}
+			return []string{t}, true
+		case strings.HasPrefix(d, "SORT "):
+			return []string{strings.TrimPrefix(d, "SORT ")}, true
+		}
+		return nil, false
+	case *emAlt:
+		var ts []string
+		for _, c := range append(append([]emNode{}, x.then...), x.els...) {
+			t, p := effTargets(c)
+			if !p {
+				return nil, false
+			}
+			ts = append(ts, t...)
+		}
+		return ts, true
+	case *emLoop:
+		var ts []string
+		for _, c := range x.body {
+			t, p := effTargets(c)
+			if !p {
+				return nil, false
+			}
+			ts = append(ts, t...)
+		}
+		return ts, true
+	}
+	return nil, false
+}
+
+// hoistEffects moves every pure bookkeeping node left past the token runs
+// that precede it and do not mention what it writes: only the order of the
+// emitted text (and of bookkeeping among itself) is significant.
+func hoistEffects(ns []emNode) []emNode {
+	for _, n := range ns {
+		switch x := n.(type) {
+		case *emAlt:
+			x.then, x.els = hoistEffects(x.then), hoistEffects(x.els)
+		case *emLoop:
+			x.body = hoistEffects(x.body)
+		}
+	}
+	out := append([]emNode{}, ns...)
+	for i := 0; i < len(out); i++ {
+		targets, pure := effTargets(out[i])
+		if !pure {
+			continue
+		}
+		j := i
+		for j > 0 {
+			t, ok := out[j-1].(*emTok)
+			if !ok {
+				break
+			}
+			txt := strings.Join(t.toks, " ")
+			clash := false
+			for _, tg := range targets {
+				if tg != "" && strings.Contains(txt, tg) {
+					clash = true
+				}
+			}
+			if clash {
+				break
+			}
+			out[j-1], out[j] = out[j], out[j-1]
+			j--
+		}
+	}
+	return mergeToks(out)
+}
+
+// renumber renames m/n/SNAP variables by order of first appearance in the trace.
+func renumber(ns []emNode) {
+	next := map[string]int{}
+	mapping := map[string]string{}
+	re := func(s string) string {
+		return varTok.ReplaceAllStringFunc(s, func(v string) string {
+			if r, ok := mapping[v]; ok {
+				return r
+			}
+			kind := strings.TrimRight(v, "0123456789")
+			next[kind]++
+			r := kind + itoa(next[kind])
+			mapping[v] = r
+			return r
+		})
+	}
+	var walk func(ns []emNode)
+	walk = func(ns []emNode) {
+		for _, n := range ns {
+			switch x := n.(type) {
+			case *emTok:
+				for i := range x.toks {
+					x.toks[i] = re(x.toks[i])
+				}
+			case *emEff:
+				x.desc = re(x.desc)
+			case *emAlt:
+				x.cond = re(x.cond)
+				walk(x.then)
+				walk(x.els)
+			case *emLoop:
+				x.shape = re(x.shape)
+				walk(x.body)
+			}
+		}
+	}
+	walk(ns)
+}
